@@ -2,7 +2,7 @@
 
   /venv/bin/python -B harness/run_patches.py seeded            # every /verif/seeded/<id>/patch.diff (property from meta.json)
   /venv/bin/python -B harness/run_patches.py mutants [C07 ...] # every harness/mutants/Cxx-*.patch
-  options: --tier quick|thorough   --jobs N   --only <substring>
+  options: --tier quick|thorough   --jobs N   --only <substr[,substr]>   --skip Cxx[,Cyy]
 
 For each patch: `git worktree add` of /repo HEAD under /root/work/scratch-*, `git apply`, run
 `VERIF_REPO=<scratch> ./check Cxx`, record exit code + VIOLATION line, remove the worktree.
@@ -48,7 +48,7 @@ def run_one(job):
 def main():
     args = sys.argv[1:]
     kind = args.pop(0)
-    tier, jobs_n, only, props = "quick", 4, None, []
+    tier, jobs_n, only, props, skip = "quick", 4, None, [], []
     while args:
         a = args.pop(0)
         if a == "--tier":
@@ -57,6 +57,8 @@ def main():
             jobs_n = int(args.pop(0))
         elif a == "--only":
             only = args.pop(0)
+        elif a == "--skip":
+            skip = args.pop(0).split(",")
         else:
             props.append(a)
     jobs = []
@@ -75,7 +77,8 @@ def main():
             if m and (not props or m.group(1) in props):
                 jobs.append((f[:-6], m.group(1), os.path.join(root, f), tier))
     if only:
-        jobs = [j for j in jobs if only in j[0]]
+        jobs = [j for j in jobs if any(o in j[0] for o in only.split(","))]
+    jobs = [j for j in jobs if j[1] not in skip]
     jobs = [j for j in jobs if os.path.exists(os.path.join(VERIF, "harness", "props", j[1].lower() + ".py"))]
     with concurrent.futures.ThreadPoolExecutor(jobs_n) as ex:
         results = list(ex.map(run_one, jobs))
